@@ -599,11 +599,9 @@ impl PreferenceManager {
             return Ok( () );
         }
 
-        if language_country == "Auto" && decimal_separator == "Auto" {
-            return Ok( () );        // "Auto" doesn't tell us anything -- we will get called again when Language is set
-        }
-
-        let language_country = language_country.to_ascii_lowercase();
+        // "Auto" stands for the language in use ("LanguageAuto", falling back to "en"): returning early here left the values
+        // derived from an earlier Language or DecimalSeparator in place
+        let language_country = self.language_to_use(language_country).to_ascii_lowercase();
         let language_country = &language_country;
         let mut lang_country_split = language_country.split('-');
         let language = lang_country_split.next().unwrap_or("");
@@ -817,6 +815,9 @@ impl PreferenceManager {
             }
         } else {
             self.api_prefs.prefs.insert(key.to_string(), Yaml::String(value.to_string()));
+        }
+        if key == "LanguageAuto" && self.pref_to_string("Language") == "Auto" {
+            self.set_separators("Auto")?;       // the language in use changed
         }
         return Ok( () );
     }
